@@ -1,11 +1,63 @@
 """C11 -- decided by the shared proxy pipeline (checks/proxylib.py): Proxy.tla/Authz.tla model checking, TLC-generated
 scenarios replayed on the real ProxyServer, and TLC trace validation of every observed request against
-spec/trace/ProxyTrace.tla with the C11 invariants."""
+spec/trace/ProxyTrace.tla with the C11 invariants; plus a status-file scenario: with the real status task publishing
+every millisecond and a large enforce-mode rule set, every denial must be in the status.json written after it was answered."""
+import os
+
 from checks import proxylib
+from vlib import rig, util
+from vlib.ctx import validate_trace
+
+
+def status_file_rows(c):
+    thorough = c.tier == "thorough"
+    name = "c11_status"
+    d0 = os.path.join(util.BUILD, "run", name)
+    sdir = os.path.join(d0, "status")
+    n = 60 if not thorough else 400
+    doc = {"defaultAccess": "deny", "mode": "enforce", "id": "big",
+           "rules": {"privileges": [{"name": "p%d" % i, "path": "/never/%d" % i} for i in range(3000)],
+                     "roles": [], "identities": [], "roleAssignments": []}}
+    steps = [{"op": "set_rules", "ep": "imds", "doc": doc}]
+    for i in range(n):
+        cn = "d%d" % i
+        steps += [{"op": "connect", "conn": cn, "attr": {"uid": 1, "admin": 0, "dip": "169.254.169.254", "dport": 80}},
+                  {"op": "request", "conn": cn, "id": cn, "method": "GET", "target": "/metadata/identity/oauth2/token?i=%d" % (i % 7),
+                   "headers": [["Host", "h"]]},
+                  {"op": "close", "conn": cn},
+                  {"op": "snapshot", "tag": "pub%d" % i, "status_file": os.path.join(sdir, "status.json")}]
+    ev, d, _ = rig.run_rig({"steps": steps, "status_task": {"interval_ms": 1, "dir": sdir}, "drain_ms": 200}, name, timeout=600)
+    rows, denials = [], 0
+    resp = {e["id"]: e for e in ev if e["e"] == "Response"}
+    for e in ev:
+        if e["e"] == "Failed" and e.get("source") == "status.json":
+            i = int(str(e["tag"])[3:])
+            denials = sum(1 for k in range(i + 1) if resp.get("d%d" % k, {}).get("status") == 403)
+            if not e.get("found"):
+                raise util.ToolError("status.json was not published within 5 s")
+            infile = sum(x.get("count", 0) for x in (e.get("failedAuth") or []))
+            rows.append({"e": "pub", "id": "pub%d" % i, "denials": denials, "inFile": infile})
+    if len(rows) < n:
+        raise util.ToolError("status-file scenario: %d of %d publications observed" % (len(rows), n))
+    if denials < n:
+        raise util.ToolError("status-file scenario: only %d of %d requests were denied" % (denials, n))
+    return rows
 
 
 def run(c):
     proxylib.decide(c, "C11", relevant=lambda row: row['rules'] in ('audit','enforce','disabled'))
+    rows = status_file_rows(c)
+    c.extra["status_file_publications_checked"] = len(rows)
+    ok, why, res = validate_trace(c, "ProxyTrace", proxylib.write_cfg("C11", ["P_C11_PublishedInStatusFile"], "pub"), rows, "c11_pub",
+                                  count=1, timeout=300)
+    if not ok:
+        bad = next((r for r in rows if r["inFile"] != r["denials"]), {})
+        # re-execute once: only a verdict that reproduces is reported
+        rows2 = status_file_rows(c)
+        if all(r["inFile"] == r["denials"] for r in rows2):
+            raise util.ToolError("a stale status file (%s) did not reproduce; not believed" % bad)
+        c.violation("a denial that was already answered is missing from the status file published afterwards: %s" % bad,
+                    {"broken": "P_C11_PublishedInStatusFile"}, {"first": bad})
 
 
 def replay(c, path):
